@@ -166,6 +166,91 @@ theorem uniques_sorted (ys : List Int) : (uniques ys).Pairwise (· < ·) := by
   | nil => simp [uniques]
   | cons a t ih => exact insertUniq_sorted a _ ih
 
+/-! ### labels of any ordered type: only their ORDER matters
+
+`oneHot` is stated over integer labels and compares them exactly.  Labels of another type (floats, strings, booleans,
+integers of any width) reach it through a strictly increasing injection into the integers — the check uses the
+sign-magnitude bit pattern of a float and the positional value of a string's code points.  This is harmless: re-labelling
+through ANY strictly increasing map leaves every one-hot row unchanged, so the rows are a function of the order type of the
+label list alone (two labels get the same column iff they are equal — however close they are — and columns follow `<`). -/
+
+theorem strictMono_lt_iff (f : Int → Int) (hf : ∀ a b, a < b → f a < f b) (a b : Int) : f a < f b ↔ a < b := by
+  constructor
+  · intro h
+    rcases Int.lt_trichotomy a b with h' | h' | h'
+    · exact h'
+    · subst h'; omega
+    · have := hf b a h'; omega
+  · exact hf a b
+
+theorem strictMono_eq_iff (f : Int → Int) (hf : ∀ a b, a < b → f a < f b) (a b : Int) : f a = f b ↔ a = b := by
+  constructor
+  · intro h
+    rcases Int.lt_trichotomy a b with h' | h' | h'
+    · have := hf a b h'; omega
+    · exact h'
+    · have := hf b a h'; omega
+  · intro h; subst h; rfl
+
+theorem insertUniq_map (f : Int → Int) (hf : ∀ a b, a < b → f a < f b) (y : Int) (l : List Int) :
+    insertUniq (f y) (l.map f) = (insertUniq y l).map f := by
+  induction l with
+  | nil => simp [insertUniq]
+  | cons x xs ih =>
+    simp only [List.map_cons, insertUniq]
+    by_cases h1 : y < x
+    · simp [h1, (strictMono_lt_iff f hf y x).2 h1]
+    · have h1' : ¬ f y < f x := fun h => h1 ((strictMono_lt_iff f hf y x).1 h)
+      by_cases h2 : y = x
+      · subst h2; simp
+      · have h2' : ¬ f y = f x := fun h => h2 ((strictMono_eq_iff f hf y x).1 h)
+        simp [h1, h1', h2, h2', ih]
+
+theorem uniques_map (f : Int → Int) (hf : ∀ a b, a < b → f a < f b) (ys : List Int) :
+    uniques (ys.map f) = (uniques ys).map f := by
+  induction ys with
+  | nil => simp [uniques]
+  | cons a t ih =>
+    simp only [uniques, List.map_cons, List.foldr_cons] at ih ⊢
+    rw [ih, insertUniq_map f hf]
+
+theorem idxOf_map_strictMono (f : Int → Int) (hf : ∀ a b, a < b → f a < f b) (y : Int) (l : List Int) :
+    (l.map f).idxOf (f y) = l.idxOf y := by
+  induction l with
+  | nil => simp
+  | cons x xs ih =>
+    simp only [List.map_cons, List.idxOf_cons, ih]
+    by_cases h : x = y
+    · subst h; simp
+    · have h' : ¬ f x = f y := fun e => h ((strictMono_eq_iff f hf x y).1 e)
+      have b1 : (f x == f y) = false := by simpa using h'
+      have b2 : (x == y) = false := by simpa using h
+      rw [b1, b2]
+
+/-- **One-hot depends only on the order of the labels**: re-labelling through any strictly increasing map changes no row. -/
+theorem oneHot_map_strictMono (f : Int → Int) (hf : ∀ a b, a < b → f a < f b) (ys : List Int) :
+    oneHot (ys.map f) = oneHot ys := by
+  simp only [oneHot, uniques_map f hf, List.length_map, List.map_map]
+  apply List.map_congr_left
+  intro y _
+  simp only [Function.comp, idxOf_map_strictMono f hf]
+
+/-- distinct labels get distinct columns, however close they are: the column of the smaller label comes first -/
+theorem oneHot_distinct_columns (ys : List Int) (a b : Int) (ha : a ∈ ys) (hb : b ∈ ys) (hab : a ≠ b) :
+    (uniques ys).idxOf a ≠ (uniques ys).idxOf b := by
+  intro h
+  have ha' := (mem_uniques ys a).mpr ha
+  have hb' := (mem_uniques ys b).mpr hb
+  have ia := List.idxOf_lt_length_iff.mpr ha'
+  have ib := List.idxOf_lt_length_iff.mpr hb'
+  have e1 : (uniques ys)[(uniques ys).idxOf a] = a := List.getElem_idxOf ia
+  have e2 : (uniques ys)[(uniques ys).idxOf b] = b := List.getElem_idxOf ib
+  apply hab
+  rw [← e1, ← e2]
+  simp only [h]
+
+example : oneHot ([100001, 100000, 100002].map (fun x => 2 * x + 7)) = oneHot [1, 0, 2] := by decide
+
 /-! ### Non-vacuity -/
 example : (splitIndices [3,1,0,2,4] 2 (some (fun m => m / 2))) = ⟨[2,4], [3,1], some [0]⟩ := by decide
 example : loaderBatches 7 7 3 = some [([0,1,2],[0,1,2]), ([3,4,5],[3,4,5])] := by decide
